@@ -3,6 +3,7 @@ package checks
 import (
 	"encoding/json"
 	"fmt"
+	"github.com/free5gc/ike/message"
 
 	"verif/mc/engine"
 	"verif/mc/ref"
@@ -132,6 +133,29 @@ func evalC03(c *engine.Ctx, cs c03Case) {
 		}
 		c.Violate("roundtrip/"+d, fmt.Sprintf("%s: want %s got %s", cs.Name, trs(m.Canon()), trs(got.Canon())), cs)
 		return
+	}
+	// the other decoding entry points give the same message: header parsed separately + DecodePayload on the rest,
+	// and the payload chain alone through the container
+	{
+		var alt message.IKEMessage
+		var aerr error
+		api := engine.Catch(func() {
+			var h *message.IKEHeader
+			if h, aerr = message.ParseHeader(b[:28:28]); aerr == nil {
+				alt.IKEHeader = h
+				aerr = alt.DecodePayload(b[28:])
+			}
+		})
+		if api != nil || aerr != nil || univ.Project(&alt).Canon() != m.Canon() {
+			c.Violate("roundtrip/via-ParseHeader+DecodePayload", fmt.Sprintf("%s: ParseHeader on the 28 header octets and DecodePayload on the rest give %v %v %s", cs.Name, api, aerr, trs(univ.Project(&alt).Canon())), cs)
+			return
+		}
+		var cont message.IKEPayloadContainer
+		var cerr error
+		if cpi := engine.Catch(func() { cerr = cont.Decode(b[16], b[28:]) }); cpi != nil || cerr != nil || ref.CanonPayloads(univ.ProjectPayloads(cont)) != ref.CanonPayloads(m.P) {
+			c.Violate("roundtrip/via-container-decode", fmt.Sprintf("%s: IKEPayloadContainer.Decode on the payload chain gives %v %v", cs.Name, cpi, cerr), cs)
+			return
+		}
 	}
 	if c.State(engine.Hash64(b)) {
 		c.States++
